@@ -979,6 +979,13 @@ class Gen:
         return dict(k='mod', path=h.path, type=h.type, text=bad, unit=cu), 'condition'
 
     def missing_query(self, nodes):
+        for _ in range(10):
+            q = self._missing_query(nodes)
+            if not query(nodes, q) and not query(nodes, q + '.*'):
+                return q
+        return 'nothere'
+
+    def _missing_query(self, nodes):
         rng = self.rng
         paths = list(nodes)
         p = rng.choice(paths) if paths else 'q'
